@@ -74,11 +74,17 @@ func entriesFor(n int) []string {
 
 func c07Programs(tier string) []*schedmc.Program {
 	var progs []*schedmc.Program
-	type cfg struct{ n, r int }
-	cfgs := []cfg{{1, 1}, {2, 1}, {3, 2}}
+	type cfg struct {
+		n, r int
+		// join: the last member joined after data was written; the table was pushed and the fragments
+		// were handed over, but the previous owner is still LISTED for the counter's partition (it is
+		// pruned by the next routing push only): callers on the previous owner and on the owner
+		join bool
+	}
+	cfgs := []cfg{{1, 1, false}, {2, 1, false}, {3, 2, false}, {2, 1, true}}
 	threadCounts := []int{2}
 	if tier == "thorough" {
-		cfgs = append(cfgs, cfg{2, 2}, cfg{3, 1})
+		cfgs = append(cfgs, cfg{2, 2, false}, cfg{3, 1, false}, cfg{2, 2, true})
 		threadCounts = []int{2, 3}
 	}
 	deltas := []int64{1, 2, 4}
@@ -89,13 +95,50 @@ func c07Programs(tier string) []*schedmc.Program {
 					if kind == "incr-expired" && T > 2 {
 						continue
 					}
+					if cf.join && kind != "incr" && kind != "getput" {
+						continue
+					}
 					ents, kind, cf := ents, kind, cf
 					p := &schedmc.Program{
 						Name: fmt.Sprintf("%s N=%d R=%d entries=%s", kind, cf.n, cf.r, strings.Join(ents, "+")),
 						Opts: simcluster.Opts{N: cf.n, Replicas: cf.r, WriteQ: 1, ReadQ: 1, Partitions: 7},
 						DMap: "d", Key: "ctr",
 					}
+					if cf.join {
+						p.Name += " previous-owner-still-listed"
+						p.Opts.N = cf.n - 1
+					}
 					p.Setup = func(cl *simcluster.Cluster, p *schedmc.Program) {
+						if cf.join {
+							// a key in every partition on the old member(s), then the join, the routing push
+							// and the hand-over of the fragments - but not the push that prunes the emptied
+							// previous owners
+							first := cl.Live()[0]
+							dm0, _ := first.Emb.NewDMap(p.DMap)
+							kv0 := simcluster.WrapDMap("", dm0)
+							for part := uint64(0); part < cl.O.Partitions; part++ {
+								part := part
+								kv0.Put(cl.FindKey(fmt.Sprintf("bg%d-", part), func(k string) bool { return cl.PartID(p.DMap, k) == part }), []byte("x"), simcluster.PutOpt{})
+							}
+							nm, err := cl.StartMember(cf.n - 1)
+							if err != nil {
+								panic(err)
+							}
+							cl.DeliverAll()
+							cl.Push()
+							for round := 0; round < 4; round++ {
+								for _, m := range cl.Live() {
+									cl.Balance(m)
+								}
+							}
+							cl.Quiesce()
+							// the counter: a key of a partition that went to the new member and still lists
+							// its previous owner
+							p.Key = cl.FindKey("ctr", func(k string) bool {
+								t := first.DB.VerifRT().VerifTable()[cl.PartID(p.DMap, k)]
+								return cl.Owner(first, p.DMap, k) == nm && len(t.Owners) >= 2
+							})
+						}
 						schedmc.Warm(cl, p.DMap)
 						kv, _ := cl.Entry("EO", p.DMap, p.Key)
 						switch kind {
@@ -171,7 +214,7 @@ func c07Programs(tier string) []*schedmc.Program {
 							}
 							for _, mem := range cl.Live() {
 								dm, _ := mem.Emb.NewDMap("d")
-								r := simcluster.WrapDMap("", dm).Get("ctr")
+								r := simcluster.WrapDMap("", dm).Get(p.Key)
 								got := string(r.Val)
 								h.Note = "final=" + got
 								match := false
